@@ -207,6 +207,21 @@ pub fn run(e: &'static Engine) {
         }));
     }
     e.par(jobs);
+    // automatic-mask sweep where exact penalty ties occur (versions 1..14): "mask reported / named in the format
+    // information" vs "mask physically applied" can only come apart when the selection is automatic
+    let total: u32 = e.tier.pick(16000, 240000);
+    let shards = e.tier.pick(32u32, 96);
+    let mut jobs: Vec<Job> = Vec::new();
+    for _ in 0..shards {
+        jobs.push(Box::new(move |jc: &mut JobCtx| {
+            let strat = crate::gens::auto_mask_small();
+            jc.run_prop(2 << 20, &strat, total / shards, |(c, _, _)| c.to_json(), |(c, fam, _), o| {
+                o.label("part:auto_mask_small");
+                check(c, fam, o)
+            });
+        }));
+    }
+    e.par(jobs);
     e.put("cells_total", json!(1280));
     e.set_exhaustive(true, "the 4 x 8 x 40 forced (level, mask, version) cells; payloads and the forced/automatic combinations are sampled");
 }
